@@ -2831,14 +2831,6 @@ class LazyIter:
         if self._close is not None:
             self._close()
 
-    def __del__(self):
-        # a generator that is dropped before it is exhausted: its helper thread is released (as Python closes the generator)
-        try:
-            if self._close is not None:
-                self._close()
-        except Exception:
-            pass
-
 
 class _GenClose(BaseException):
     pass
@@ -2897,19 +2889,24 @@ def thread_generator(body):
         to_consumer.acquire()
 
     def gen():
-        while True:
-            if state["done"] or state["closed"]:
-                return
-            if not state["started"]:
-                state["started"] = True
-                th.start()
-            to_gen.release()
-            to_consumer.acquire()
-            if state["done"]:
-                if state["exc"] is not None:
-                    raise state["exc"]
-                return
-            yield state["value"]
+        try:
+            while True:
+                if state["done"] or state["closed"]:
+                    return
+                if not state["started"]:
+                    state["started"] = True
+                    th.start()
+                to_gen.release()
+                to_consumer.acquire()
+                if state["done"]:
+                    if state["exc"] is not None:
+                        raise state["exc"]
+                    return
+                yield state["value"]
+        finally:
+            # the consumer dropped the generator before it was exhausted (or closed it): the helper thread is released
+            if state["started"] and not state["done"] and not state["closed"]:
+                close()
     return gen(), close
 
 
